@@ -162,10 +162,30 @@ def std_decode(codec, data):
     return lzma.decompress(data)
 
 
+def stream_state_failure(c, r):
+    """dump()/load() on a caller-owned file object must leave it open, positioned after the written data"""
+    kind = c.get("carrier") or (c.get("target") or {}).get("k")
+    if r.get("stream_closed"):
+        return "after %s() the caller's file object (%s) is closed" % (r["stream_closed"], kind)
+    st = r.get("after_dump")
+    if st and not r.get("raise") and not r.get("dump_raise"):
+        if st["closed"]:
+            return "after dump() the caller's file object (%s) is closed" % kind
+        if "expected_pos" in st and st["pos"] != st["expected_pos"]:
+            return "after dump() the caller's file object (%s) is at position %s, the written data ends at %s" % (
+                kind, st["pos"], st["expected_pos"])
+    if r.get("closed_after_load"):
+        return "after load() the caller's file object (%s) is closed" % kind
+    return None
+
+
 def judge_resolve(c, r, k):
     """property oracle on one dump; returns a description of the failure or None"""
     if "harness_error" in r:
-        return "harness error " + r["harness_error"]
+        return "the case could not be run to its end: " + r["harness_error"] + " " + r.get("tb", "")[-300:]
+    bad = stream_state_failure(c, r)
+    if bad:
+        return bad
     exp = documented(c["form"], c["target"], k)
     if exp[0] == "raise":
         if r["raise"] != exp[1]:
@@ -413,6 +433,9 @@ def judge_roundtrip(c, r):
         return "harness error " + r["harness_error"] + " " + r.get("tb", "")
     if "unpicklable" in r:
         return None                      # pickle.dumps itself refuses the object: outside the property
+    bad = stream_state_failure(c, r)
+    if bad:
+        return bad
     if "dump_raise" in r:
         return "dump raised " + r["dump_raise"]
     if "load_raise" in r:
